@@ -206,15 +206,25 @@ def runFieldOpRaw (op : String) (a : List String) : Option String :=
     let x ← hexNat? x; let y ← hexNat? y
     let out := GoBk.IR.runFnFull GoBk.Gen.CurveIR.prog consts GoBk.Gen.CurveIR.fn_isOnCurve
       [setByteSlice (natBE x), setByteSlice (natBE y)] [0, 1] (fun _ => false)
-    pure ("ok " ++ b2s (out.flags 0))
+    -- S=: the regenerated code's answer against the curve equation on the values (first 32 bytes, mod P)
+    let xv := beNat ((natBE x).take 32) % Spec.P; let yv := beNat ((natBE y).take 32) % Spec.P
+    let want := (yv * yv) % Spec.P == (xv * xv % Spec.P * xv + 7) % Spec.P
+    pure ("ok " ++ b2s (out.flags 0) ++ " S=" ++ b2s (out.flags 0 == want))
   | "jac.decompress", [x, ybit] => do
     -- hand-modelled head/tail of decompressPoint: x.SetByteSlice(bigX.Bytes()); SetBytes(y.Bytes()[:])
     let x ← hexNat? x
     let yb ← if ybit == "1" then some true else if ybit == "0" then some false else none
     let out := GoBk.IR.runFnFull GoBk.Gen.CurveIR.prog consts GoBk.Gen.CurveIR.fn_decompressPoint
       [setByteSlice (natBE x)] [0] (fun i => i == 0 && yb)
-    pure (if out.flags 1 then "err 1" else if out.flags 2 then "err 2"
-          else "ok " ++ nhex (fvNat (out.locals.getD 1 zero)))
+    -- S=: against the square root computed in plain natural-number arithmetic (a^((P+1)/4), parity fix, check)
+    let xv := beNat ((natBE x).take 32) % Spec.P
+    let c := (xv * xv % Spec.P * xv + 7) % Spec.P
+    let y0 := Spec.sqrtCand c
+    let y1 := if yb != (y0 % 2 == 1) then (Spec.P - y0) % Spec.P else y0
+    let want : String := if y1 * y1 % Spec.P != c then "err 1" else if yb != (y1 % 2 == 1) then "err 2" else "ok " ++ nhex y1
+    let got := if out.flags 1 then "err 1" else if out.flags 2 then "err 2"
+          else "ok " ++ nhex (fvNat (out.locals.getD 1 zero))
+    pure (got ++ " S=" ++ b2s (got == want))
   | "table.get", [i, b] => do
     let i ← i.toNat?; let b ← b.toNat?
     if i ≥ 32 || b ≥ 256 then none
